@@ -81,6 +81,8 @@ CLASSES = {
     "DP": S.DP,
     "WithPath": S.WithPath,
     "AbstractBase": S.AbstractBase,
+    "DI": S.DI,
+    "LBase": S.LBase,
 }
 FUNCS = {"double": S.double, "base_n": S.base_n}
 
